@@ -90,6 +90,28 @@ def py2e(node, env):
         if node.id == "pi":
             return ".pi"
         return f'(.var "{node.id}")'
+    if isinstance(node, ast.Call) and isinstance(node.func, ast.Attribute) and isinstance(node.func.value, ast.Name) and node.func.value.id == "self" \
+            and SELF_CLASS is not None and callable(getattr(SELF_CLASS, node.func.attr, None)):
+        # a call of a sibling method (`self._eq18(...)`): inline its translation with the arguments bound
+        global _INLINE_DEPTH
+        callee = getattr(SELF_CLASS, node.func.attr)
+        params = [a.arg for a in ast.parse(textwrap.dedent(inspect.getsource(callee))).body[0].args.args if a.arg != "self"]
+        if len(node.args) > len(params) or any(k.arg not in params for k in node.keywords):
+            raise Untranslatable("call self." + node.func.attr + " with unexpected arguments")
+        binding = {p_: py2e(a_, env) for p_, a_ in zip(params, node.args)}
+        binding.update({k.arg: py2e(k.value, env) for k in node.keywords})
+        if set(binding) != set(params) or _INLINE_DEPTH > 4:
+            raise Untranslatable("call self." + node.func.attr + ": arguments do not cover the parameters")
+        _INLINE_DEPTH += 1
+        try:
+            saved = dict(RENAME)
+            RENAME.clear()
+            try:
+                return translate_function(callee, binding)
+            finally:
+                RENAME.update(saved)
+        finally:
+            _INLINE_DEPTH -= 1
     if isinstance(node, ast.Call):
         if isinstance(node.func, ast.Attribute) and node.func.attr == "astype":
             return py2e(node.func.value, env)  # dtype cast: identity on values
@@ -126,10 +148,14 @@ def return_expr(fn_obj):
     raise Untranslatable("no return in " + fn.name)
 
 
-def translate_function(fn_obj):
+SELF_CLASS = None   # class whose methods `self.<name>(...)` calls are inlined (set while a class is translated)
+_INLINE_DEPTH = 0
+
+
+def translate_function(fn_obj, binding=None):
     src = textwrap.dedent(inspect.getsource(fn_obj))
     fn = ast.parse(src).body[0]
-    env = {}
+    env = dict(binding or {})
     for st in fn.body:
         if isinstance(st, ast.AnnAssign) and isinstance(st.target, ast.Name) and st.value is not None:
             env[st.target.id] = py2e(st.value, env)
@@ -191,11 +217,12 @@ def sym2e(e):
 def translate_tlm(out, names_out, untranslatable):
     """General transmission line model: the branch formulas `_eqNN` (numeric) and the return expressions of
     `_sympy` (symbolic), plus the shared auxiliaries lm, cs, ct, s."""
-    global RENAME
+    global RENAME, SELF_CLASS
     from pyimpspec.circuit.transmission_line_model import TransmissionLineModel as T
     eqs = ["_eq8", "_eq16", "_eq17", "_eq18", "_eq18_variant", "_eq19", "_eq20"]
     try:
         RENAME = {}
+        SELF_CLASS = T
         for m in eqs:
             out.append(f"/-- `TransmissionLineModel.{m}` -/\ndef Tlm{m}_impl : E := {translate_function(getattr(T, m))}")
         # auxiliaries of `_impedance`
@@ -234,6 +261,7 @@ def translate_tlm(out, names_out, untranslatable):
         untranslatable.append({"what": "TransmissionLineModel", "detail": str(ex)})
     finally:
         RENAME = {}
+        SELF_CLASS = None
 
 
 def translate_analysis(out, names_out, untranslatable):
@@ -502,6 +530,23 @@ def generate(gen_dir, untranslatable):
     out.append("def names : List String := [" + ", ".join(f'"{n}"' for n in names) + "]")
     out.append("def impls : List (String × E) := [" + ", ".join(f'("{n}", {n}_impl)' for n in names) + "]")
     out.append("def eqns : List (String × E) := [" + ", ".join(f'("{n}", {n}_eqn)' for n in names) + "]")
+    # safety net: the model files and the driver refer to these definitions by name; when one could not be translated a
+    # placeholder keeps the driver building (so the failing-input search can still run) while every theorem and
+    # cross-check about it fails
+    expected = ["residual", "boukampWeight", "chisqrTerm", "zhit_rec_Y", "zhit_rec_Z", "zhit_offset_residual", "trnnls_A_re", "trnnls_A_im", "lm_tau", "lm_gamma",
+                "mrq_gamma_rc", "mrq_gamma_rq", "mrq_tau0", "fit_err_re", "fit_err_im", "fit_w_unity_re", "fit_w_unity_im", "fit_w_modulus_re", "fit_w_modulus_im",
+                "fit_w_proportional_re", "fit_w_proportional_im", "fit_w_boukamp_re", "fit_w_boukamp_im", "est_pct_noise", "est_pseudo_chisqr", "noise_sd",
+                "kk_kth_Y", "kk_kth_Z", "kk_cap_Y", "kk_cap_Z", "kk_ind_Y", "kk_ind_Z"]
+    for m in ["_eq8", "_eq16", "_eq17", "_eq18", "_eq18_variant", "_eq19", "_eq20"]:
+        expected += [f"Tlm{m}_impl", f"Tlm{m}_sym"]
+    for k in ("lm", "cs", "ct", "s"):
+        expected += [f"Tlm_{k}_impl", f"Tlm_{k}_sym"]
+    import re as _re
+    defined = set(_re.findall(r"^def (\w+) : E", "\n".join(out), flags=_re.M))
+    for name in expected:
+        if name not in defined:
+            out.append(f"/-- PLACEHOLDER: this kernel could not be translated from the current source (see the translator report) -/\ndef {name} : E := .var \"__untranslatable__\"")
+            untranslatable.append({"what": f"placeholder emitted for {name}", "detail": "definition missing after translation"})
     out.append("")
     out.append("end Gen.K")
     changed = translate.write_if_changed(os.path.join(gen_dir, "Kernels.lean"), "\n".join(out) + "\n")
